@@ -1,9 +1,9 @@
 #include "../engine/vx.h"
-extern const vx_harness h_once, h_sema, h_q01, h_q02, h_q03, h_q04, h_q05, h_group, h_source, h_suspend, h_apply, h_block, h_life, h_timer, h_cancel, h_io, h_spec, h_specrace, h_mainrl;
+extern const vx_harness h_once, h_sema, h_q01, h_q02, h_q03, h_q04, h_q04x, h_q05, h_group, h_source, h_suspend, h_apply, h_block, h_life, h_timer, h_cancel, h_io, h_spec, h_specrace, h_mainrl;
 const vx_harness *const vx_harnesses[] = {
 	&h_once,
 	&h_sema,
-	&h_q01, &h_q02, &h_q03, &h_q04, &h_q05,
+	&h_q01, &h_q02, &h_q03, &h_q04, &h_q04x, &h_q05,
 	&h_group,
 	&h_source,
 	&h_suspend,
